@@ -28,23 +28,40 @@ def _norm(e) -> str:
 
 
 def _bc_table(fn) -> Dict[str, Dict[str, str]]:
-    """bc literal -> {'rows': row-count expression of the 1-D stencil matrix}"""
+    """bc literal -> {'rows': row-count expression of the 1-D stencil matrix}: for every literal the option is compared with, the paths through
+    _create_diff_matrix are followed (tests on the option decided, all others both ways) and the value bound to `Dmat` at the end is read off with
+    locals replaced by their bindings; its innermost spdiags(...) / eye(...) call gives the number of rows. Literals whose paths all raise are absent."""
+    from .common import case_valuation, lit_test_any
+    from ..pathtable import walk_paths
+    from ..pattern import norm as pn
+    from ..flow import Expander
     out: Dict[str, Dict[str, str]] = {}
-    g = CFG(fn)
-    for n in g.nodes:
-        if isinstance(n.ast, ast.Assign) and n.kind == "stmt" and path_of(n.ast.targets[0]) == "Dmat":
-            lits = [t.ast.comparators[0].value for t, lab in g.guards_of(n) if lab == "T" and isinstance(t.ast, ast.Compare)
-                    and _norm(t.ast.left) == "self.bc_type" and isinstance(t.ast.comparators[0], ast.Constant)]
-            if len(lits) != 1:
+    ex = Expander(fn)
+    lits = []
+    for t in ex.cfg.tests():
+        try:
+            r = lit_test_any(ex.expand(t.ast, t))
+        except Exception:
+            r = lit_test_any(t.ast)
+        if r is not None and pn(r[0]) == "self.bc_type":
+            lits += [v for v in sorted(r[1], key=repr) if isinstance(v, str) and v not in lits]
+    for lit in lits:
+        rows = set()
+        for kind, res in walk_paths(fn, case_valuation(fn, "self.bc_type", lit), pn, limit=128, skip_loops=True):
+            env = res if kind == "fall" else (getattr(res, "_env", {}) if kind == "return" else None)
+            if env is None or "Dmat" not in env:
                 continue
-            v = n.ast.value
-            core = v.func.value if isinstance(v, ast.Call) and isinstance(v.func, ast.Attribute) and v.func.attr in ("tocsr", "tocsc") else v
-            rows = None
-            if isinstance(core, ast.Call) and call_name(core) == "spdiags" and len(core.args) >= 4:
-                rows = _norm(core.args[2])
-            elif isinstance(core, ast.Call) and call_name(core) == "eye":
-                rows = _norm(core.args[0])
-            out.setdefault(lits[0], {})["rows"] = rows
+            r_ = None
+            for c in ast.walk(env["Dmat"]):
+                if isinstance(c, ast.Call) and call_name(c) == "spdiags" and len(c.args) >= 4:
+                    r_ = _norm(c.args[2])
+                elif isinstance(c, ast.Call) and call_name(c) == "eye" and c.args and r_ is None:
+                    r_ = _norm(c.args[0])
+            if r_ is not None and "N" in env and isinstance(env["N"], ast.AST):
+                r_ = r_.replace(_norm(env["N"]), "N")            # the grid size is written N in the table
+            rows.add(r_)
+        if rows:
+            out[lit] = {"rows": rows.pop() if len(rows) == 1 else None}
     return out
 
 
